@@ -79,6 +79,8 @@ const (
 	iriGarbled    = "https://r9.example/garbled"
 	iriCycle      = "https://r9.example/cycle"
 	iriBareActor  = "https://r9.example/actor-without-anything"
+	iriReplyA     = "https://r9.example/reply-cycle/a"
+	iriReplyB     = "https://r9.example/reply-cycle/b"
 )
 
 var mutOps = []mutOp{
@@ -99,6 +101,7 @@ var mutOps = []mutOp{
 	{name: "iri-unknown-type", val: iriUnknown},
 	{name: "iri-garbled", val: iriGarbled},
 	{name: "iri-cycle", val: iriCycle},
+	{name: "iri-reply-cycle", val: iriReplyA},
 	{name: "relative-iri", val: "just/a/path"},
 	{name: "public", val: "Public"},
 }
@@ -146,6 +149,9 @@ func hostileRemotes(a *ap.App) {
 	a.PutRemote(iriUnknown, Doc("Frobnicate", iriUnknown, "inbox", "https://r9.example/inbox"))
 	a.Remote[iriGarbled] = []byte("{\"type\": \"Person\", \"inbox\": ")
 	a.PutRemote(iriCycle, Doc("Collection", iriCycle, "items", L{iriCycle, iriIncomplete, iriMissing}))
+	// two foreign notes replying to each other: a reply chain that never ends
+	a.PutRemote(iriReplyA, Doc("Note", iriReplyA, "content", "a", "inReplyTo", iriReplyB, "tag", iriReplyB))
+	a.PutRemote(iriReplyB, Doc("Create", iriReplyB, "actor", Carol, "object", iriReplyA, "target", iriReplyA))
 }
 
 // ---- panic attribution -----------------------------------------------------------------------
@@ -730,6 +736,16 @@ func C11(tier string) int {
 		}
 	})
 	_ = t0
+	if rf := os.Getenv("VERIF_C11_RACE"); rf != "" {
+		b, _ := os.ReadFile(rf)
+		txt := string(b)
+		res.Extra["race_pass"] = tail(strings.TrimSpace(txt), 200)
+		if strings.Contains(txt, "DATA RACE") || strings.Contains(txt, "fatal error: concurrent map") {
+			res.Violate("race|decoder-shared-state", "concurrent decoding races on shared state inside the decoder: "+tail(txt, 1500), M{"check": "C11", "part": "race", "log": rf})
+		} else if strings.Contains(txt, "FAIL") {
+			res.Violate("race|concurrent-decoding-fails", "the concurrent decoding test fails: "+tail(txt, 1500), M{"check": "C11", "part": "race", "log": rf})
+		}
+	}
 	res.Extra["scenarios"] = len(scs)
 	res.Extra["mutation_operators"] = len(mutOps)
 	bound := 1
